@@ -835,13 +835,35 @@ def it_ext(r, ctx):
     return {"k": "ext", "b": b, "needs": "none", "tags": ["ext"]}, ops
 
 
+def it_selfdef(r, ctx):
+    """a closure whose definition holds, in its constants, a table that contains *another closure of the same
+    definition*: while the image is read, that inner closure is created when its definition is still
+    incomplete (funcdef back-reference from inside the definition's own constants).  With and without
+    captured variables (a count check against the unfinished definition rejected such images: finding 37)."""
+    n = r.randrange(1 << 30)
+    ups = r.choice([0, 1, 1, 2, 3])
+    params = " ".join("u%d" % i for i in range(ups))
+    uvals = lambda: " ".join(num(r) for _ in range(ups))
+    body = "[%s y (length selfdef-t-%d) (if (> y 0) ((get selfdef-t-%d :a) (- y 1)))]" % (" ".join("u%d" % i for i in range(ups)), n, n)
+    # separate top-level forms: a top-level def is embedded in later functions as a constant
+    b = ("(do (eval '(def selfdef-t-%d @{:pad %s})) (eval '(def selfdef-mk-%d (fn mk [%s] (fn inner [y] %s))))\n"
+         "   (eval '(put selfdef-t-%d :a (selfdef-mk-%d %s))) %s(eval '(selfdef-mk-%d %s)))"
+         % (n, num(r), n, params, body, n, n, uvals(),
+            "(eval '(put selfdef-t-%d :b (selfdef-mk-%d %s))) " % (n, n, uvals()) if r.random() < 0.4 else "", n, uvals()))
+    ops = [{"cls": "behaviour/closure-of-a-definition-reachable-from-its-own-constants", "e": "(X %d)" % r.randint(0, 4)}
+           for _ in range(r.randint(1, 3))]
+    ops.append({"cls": "shape/funcdef", "e": "(do (def d (fdef X)) [(length (d :bytecode)) (length (d :constants)) (d :environments)])"})
+    return {"k": "selfdef", "b": b, "needs": "none", "tags": ["shared_env"] if ups else []}, ops
+
+
 ITEM_KINDS = {
+    "selfdef": it_selfdef,
     "counter": it_counter, "loop": it_loop, "rec": it_rec, "args": it_args, "nested": it_nested, "corefn": it_corefn,
     "capnode": it_capnode, "bigfn": it_bigfn, "fgen": it_fgen, "fdefer": it_fdefer, "fchild": it_fchild, "fenv": it_fenv,
     "fstate": it_fstate, "fdyn": it_fdyn, "chan": it_chan, "peg": it_peg, "int64": it_int64, "rng": it_rng,
     "atoms": it_atoms, "ext": it_ext,
 }
-WEIGHTS = {"counter": 3, "loop": 3, "rec": 2, "args": 2, "nested": 2, "corefn": 2, "capnode": 3, "bigfn": 0.5, "fgen": 4,
+WEIGHTS = {"selfdef": 2, "counter": 3, "loop": 3, "rec": 2, "args": 2, "nested": 2, "corefn": 2, "capnode": 3, "bigfn": 0.5, "fgen": 4,
            "fdefer": 3, "fchild": 3, "fenv": 3, "fstate": 2, "fdyn": 1.5, "chan": 4, "peg": 3, "int64": 3, "rng": 1, "atoms": 2,
            "ext": 1}
 
